@@ -13,6 +13,14 @@ import (
 //   sparse operands: '_' no entry, 'e' entry created with At(i) and left zero,
 //                    '1', 'm', 'z' as above
 // In variable mode (Real32/Real64 only) '1' and 'm' are activated variables as well.
+//
+// Derivative-only elements (variable mode, alphabet level 8; value 0 in every case):
+//   'z' gradient only      : a zero-valued variable x_k            (d_k = 1, Hessian 0)
+//   'h' diagonal Hessian   : x_k*x_k at x_k = 0                     (d = 0, H_kk = 2)
+//   'o' off-diagonal only  : x_k*x_(k+1) at (0,0), two own variables (d = 0, H_k,k+1 = H_k+1,k = 1)
+//   'y' a true zero of order 2: memory for N derivatives allocated, every entry zero
+// The element is written through the public scalar interface (Alloc, SetHessian), so that
+// what the container holds does not depend on the library's scalar arithmetic.
 
 // The Equals alphabets add: 't' 1e-17, 'u' -1e-17, 'n' 1e-9, 'q' 0.75, 'I' +Inf, 'J' -Inf,
 // 'N' NaN (never variables). 'p' and 'r' are the constants 1 and -2 a receiver holds after
@@ -41,16 +49,24 @@ func letterVal(c byte) float64 {
 	return 0
 }
 
-func isVar(c byte, varMode bool) bool {
-	return varMode && (c == 'z' || c == '1' || c == 'm')
+// ownVars: the number of variables the element at letter c introduces.
+func ownVars(c byte, varMode bool) int {
+	if !varMode {
+		return 0
+	}
+	switch c {
+	case 'z', '1', 'm', 'h':
+		return 1
+	case 'o':
+		return 2
+	}
+	return 0
 }
 
 func countVars(p string, varMode bool) int {
 	n := 0
 	for i := 0; i < len(p); i++ {
-		if isVar(p[i], varMode) {
-			n++
-		}
+		n += ownVars(p[i], varMode)
 	}
 	return n
 }
@@ -75,10 +91,21 @@ func (m *model) operand(p string, varMode bool, next *int) []jet {
 		if m.class == "int" {
 			r[i].v = roundTo("Int", r[i].v)
 		}
-		if isVar(p[i], varMode) {
-			r[i].d = make([]float64, m.n)
-			r[i].d[*next] = 1
-			*next++
+		k, n := *next, m.n
+		*next += ownVars(p[i], varMode)
+		if !varMode {
+			continue
+		}
+		switch p[i] {
+		case 'z', '1', 'm':
+			r[i].d = make([]float64, n)
+			r[i].d[k] = 1
+		case 'h':
+			r[i].h = make([]float64, n*n)
+			r[i].h[k*n+k] = 2
+		case 'o':
+			r[i].h = make([]float64, n*n)
+			r[i].h[k*n+k+1], r[i].h[(k+1)*n+k] = 1, 1
 		}
 	}
 	return r
